@@ -14,11 +14,32 @@ import struct
 import sys
 import time
 
+# This process forks (pool workers, single-run children) while a background thread replays the stored witnesses.
+# A fork taken while another thread is in the middle of an import leaves that module's import lock held for ever
+# in the child, and a child that then needs the module hangs - which would look like a stalled load.  So everything
+# the harness imports lazily is imported here, before any thread exists.
+import concurrent.futures.process  # noqa: F401,E402
+import ctypes  # noqa: F401,E402
+import faulthandler  # noqa: F401,E402
+import glob  # noqa: F401,E402
+import json  # noqa: F401,E402
+import linecache  # noqa: F401,E402
+import multiprocessing  # noqa: F401,E402
+import pathlib  # noqa: F401,E402
+import random  # noqa: F401,E402
+import resource  # noqa: F401,E402
+import subprocess  # noqa: F401,E402
+import tempfile  # noqa: F401,E402
+import threading  # noqa: F401,E402
+
 from sim import audit, core, corpus, simdisk
 
 PROP = "C11"
 
-STEP_BASE = 5000
+# The floor is what the loader's own budgets allow a tiny file to cost in Python-level work: its hash-cost budget
+# admits ~1.5 M calls of UnicodeForPython3.__hash__ (~0.7 s of CPU, ~6 M line events) from a few hundred bytes.
+# A floor of 5000 steps flagged such a 256-byte file (30 ms of CPU) as not prompt: a false alarm (DESIGN A.3).
+STEP_BASE = 8000000
 STEP_PER_BYTE = 400
 RSS_LIMIT_KB = 256 * 1024
 BATCH = 24
@@ -127,7 +148,9 @@ def plan_run(i):
     # how the caller names the file and what else it passes: non-ASCII / very long / odd names, a relative path,
     # a caller-supplied code_objects dict
     p.call = {"name_style": rng.weighted([("as_is", 12), ("unicode", 1), ("long", 1), ("spaces", 1), ("pyo", 1)]),
-              "relative": rng.chance(1, 10), "code_objects": rng.chance(1, 10)}
+              "relative": rng.chance(1, 10), "code_objects": rng.chance(1, 10),
+              # open() takes bytes and os.PathLike names too, so callers pass them
+              "path_type": rng.weighted([("str", 14), ("bytes", 1), ("pathlike", 1)])}
     p.count_steps = rng.chance(1, 2)
     mode = rng.weighted([("fault", 80), ("control", 8), ("not_bytecode", 12)])
     p.control = mode == "control"
@@ -249,6 +272,12 @@ def _call_under_test(path, fast_load, get_code, call=None):
         cwd = os.getcwd()
         os.chdir(os.path.dirname(path))
         path = os.path.basename(path)
+    if call.get("path_type") == "bytes":
+        path = os.fsencode(path)
+    elif call.get("path_type") == "pathlike":
+        import pathlib
+
+        path = pathlib.Path(path)
     try:
         with core.FixedHeadroom():
             return load_module(path, fast_load=fast_load, get_code=get_code, **kw)
@@ -565,6 +594,7 @@ def _replay_traced(r):
     return not (sg.get("class") == "stall" or (sg.get("class") == "not_prompt" and sg.get("by") == "cpu"))
 
 
+MINIMISE_WALL_S = 90      # per violation class; bounds only how far a witness is shrunk
 TRACED_CPU_EXTRA_S = 30   # room for the line tracer itself: a traced run is judged by its step count only
 
 
@@ -621,6 +651,9 @@ def _run_single_image(image, name, fast_load, get_code, force_steps, wall, kind,
                 "violation": {"class": "crash", "signal": int(r.signal), "fast_path": bool(fp),
                               "site": _fault_site(r.faultlog)}}
     if r.status == "timeout":
+        if not any(audit.in_xdis(fn) for fn, _, _ in _fault_frames(r.faultlog)):
+            # the child hangs, but not in (or below) the code under test: the simulator's own doing
+            raise core.HarnessError("single-run child stalled outside xdis: %s" % (r.faultlog or "")[-400:])
         return {"outcome": "stall", "site": _fault_site(r.faultlog), "steps": None, "fast_path": False, "exc": None,
                 "violation": {"class": "stall", "wall_s": wall, "site": _fault_site(r.faultlog)}}
     raise core.HarnessError("single-run child failed: %s" % (r.value,))
@@ -628,7 +661,7 @@ def _run_single_image(image, name, fast_load, get_code, force_steps, wall, kind,
 
 def _fault_frames(text):
     frames = []
-    for line in text.splitlines():
+    for line in (text or "").splitlines():
         line = line.strip()
         if line.startswith('File "') and " in " in line:
             try:
@@ -1056,8 +1089,11 @@ def _replay_path(master, tag):
 def _pred_for(sig, name, fast_load, get_code, kind="file", call=None):
     want = sig_key(sig)
 
+    # only the step-count class needs the line tracer; every other class shows (faster) without it
+    traced = sig.get("class") == "not_prompt" and sig.get("by") != "cpu"
+
     def pred(img):
-        rec = run_single_image(img, name, fast_load, get_code, True, kind=kind, call=call)
+        rec = run_single_image(img, name, fast_load, get_code, traced, kind=kind, call=call)
         v = rec.get("violation")
         return v is not None and sig_key(signature(v)) == want
 
@@ -1075,7 +1111,7 @@ def _report_sequence(master, k, sig, x, group, out_lines, evidence_v):
         v = run_sequence(seq)
         return v is not None and sig_key(signature(dict(v, in_sequence=True))) == want
 
-    budget = minimise.Budget(60)
+    budget = minimise.Budget(60, MINIMISE_WALL_S)
     keep = items[:-1]
     info = {"strategy": ["not minimised"], "tests": 0}
     if fails(keep):
@@ -1096,16 +1132,14 @@ def _report_sequence(master, k, sig, x, group, out_lines, evidence_v):
 
 
 def replay_witnesses(findings):
-    """Re-execute the stored failing input of every known finding (same host only), concurrently.
+    """Re-execute the stored failing input of every known finding (same host only), one after the other.
     Returns {finding id: True/False}."""
     import glob
     import json
-    import threading
 
     host = "%d.%d.%d" % sys.version_info[:3]
     out = {}
-    lock = threading.Lock()
-    jobs = []
+    k = 0
     for f in findings:
         if f.get("property") != PROP or f.get("status") != "known":
             continue
@@ -1113,46 +1147,59 @@ def replay_witnesses(findings):
         for path in sorted(glob.glob(os.path.join(core.VERIF_DIR, "findings", "%s-*.json" % fid))):
             with open(path) as fh:
                 r = json.load(fh)
-            if r.get("host") == host:
-                jobs.append((f, fid, r))
-
-    def one(f, fid, r, k):
-        rec = run_single_image(core.unb64(r["image_b64"]), r["name"], r["fast_load"], r["get_code"], _replay_traced(r),
-                               kind=r.get("storage_object", "file"), tag="w%d" % k, call=r.get("call"))
-        v = rec.get("violation")
-        ok = v is not None and matches_finding(signature(v), f)
-        with lock:
+            if r.get("host") != host:
+                continue
+            rec = run_single_image(core.unb64(r["image_b64"]), r["name"], r["fast_load"], r["get_code"],
+                                   _replay_traced(r), kind=r.get("storage_object", "file"), tag="w%d" % k,
+                                   call=r.get("call"))
+            k += 1
+            v = rec.get("violation")
+            ok = v is not None and matches_finding(signature(v), f)
             out[fid] = out.get(fid, False) or ok
-
-    ths = [threading.Thread(target=one, args=(f, fid, r, k)) for k, (f, fid, r) in enumerate(jobs)]
-    for t in ths:
-        t.start()
-    for t in ths:
-        t.join()
     return out
 
 
 class WitnessRunner:
-    """replays the stored witnesses in the background while the seeded search runs"""
+    """Replays the stored witnesses in the background while the seeded search runs: in a forked helper PROCESS,
+    not in a thread.  This process forks pool workers and single-run children all the time; a fork taken while
+    another thread is in the middle of an import leaves that module's import lock held for ever in the child, and
+    a grandchild that needs the module (load.py imports traceback lazily) then hangs - which looked like a stalled
+    load once (DESIGN A.3).  So no thread may exist here while forks are taken."""
 
     def __init__(self, findings):
-        import threading
+        import json
 
-        self.result = {}
-        self.t = threading.Thread(target=self._run, args=(findings,))
-        self.t.start()
-
-    def _run(self, findings):
-        try:
-            self.result = replay_witnesses(findings)
-        except Exception as e:  # reported by the caller
-            self.result = {"__error__": repr(e)}
+        self.path = os.path.join(W["rundir"], "witnesses-%d.json" % os.getpid())
+        sys.stdout.flush()
+        sys.stderr.flush()
+        self.pid = os.fork()
+        if self.pid == 0:
+            code = 0
+            try:
+                try:
+                    res = replay_witnesses(findings)
+                except BaseException as e:  # reported by the caller
+                    res = {"__error__": repr(e)}
+                with open(self.path + ".tmp", "w") as f:
+                    json.dump(res, f)
+                os.rename(self.path + ".tmp", self.path)
+            except BaseException:
+                code = 3
+            finally:
+                os._exit(code)
 
     def wait(self):
-        self.t.join()
-        if "__error__" in self.result:
-            raise core.HarnessError("witness replay failed: %s" % self.result["__error__"])
-        return self.result
+        import json
+
+        _, status = os.waitpid(self.pid, 0)
+        try:
+            with open(self.path) as f:
+                result = json.load(f)
+        except (OSError, ValueError):
+            raise core.HarnessError("witness replay helper died (wait status %d)" % status)
+        if "__error__" in result:
+            raise core.HarnessError("witness replay failed: %s" % result["__error__"])
+        return result
 
 
 def report_violations(master, viols, findings, out_lines, evidence_v):
@@ -1187,7 +1234,7 @@ def report_violations(master, viols, findings, out_lines, evidence_v):
             info = {"strategy": ["not minimised: every test of this class costs its full time budget"], "tests": 0}
         elif pred(img):
             try:
-                img, info = minimise.minimise_image(x.get("base"), x["image"], pred)
+                img, info = minimise.minimise_image(x.get("base"), x["image"], pred, wall_s=MINIMISE_WALL_S)
             except Exception as e:
                 info = {"strategy": ["minimiser failed: %r" % (e,)], "tests": 0}
                 img = x["image"]
